@@ -135,11 +135,21 @@ theorem build_append_inv (xs ys : List Token) (s : Bytes) (h : Model.Script.buil
     rw [ha, hb] at h <;> simp at h
   exact ⟨a, b, (build_eq_spec _ _).mpr ha, (build_eq_spec _ _).mpr hb, h.symm⟩
 
-/-- a list containing an element of a non-script type never builds (TypeError from the join, or an
-    earlier element's own error), and bool elements build as the integers 1 / 0 -/
+/-- a list containing an element that is neither a script element nor bytes-like (str, None, float, …)
+    never builds (TypeError from the join, or another element's own error); bool elements build as the
+    integers 1 / 0; a bytes-like element of another type (memoryview, array) is spliced in raw -/
 theorem build_other_fails (xs ys : List Token) : ∃ e, Model.Script.build (xs ++ .other :: ys) = .error e := by
   rw [build_fails_iff, specBuild_append]
   rcases Spec.Script.build xs with _ | a <;> simp [Spec.Script.build, Spec.Script.tokenBytes]
+
+/-- a buffer-protocol element contributes its bytes without a push opcode (so `[memoryview(b'\x51')]`
+    builds like `[OP_1]`, not like `[b'\x51']`) -/
+theorem build_buffer_raw (xs ys : List Token) (u a b : Bytes) (ha : Model.Script.build xs = .ok a)
+    (hb : Model.Script.build ys = .ok b) :
+    Model.Script.build (xs ++ .buffer u :: ys) = .ok (a ++ u ++ b) := by
+  rw [build_eq_spec] at ha hb ⊢
+  rw [specBuild_append, ha]
+  simp [Spec.Script.build, Spec.Script.tokenBytes, hb]
 
 theorem build_bool (b : Bool) :
     Model.Script.build [.bool b] = Model.Script.build [.int (if b then 1 else 0)] := by
@@ -219,6 +229,7 @@ theorem build_defined (ts : List Token)
       | .int z => z.natAbs < 128 * 256 ^ (2 ^ 32 - 2)
       | .data d => d.length < 2 ^ 32
       | .bool _ => True
+      | .buffer _ => True
       | .other => False) :
     ∃ s, Model.Script.build ts = .ok s := by
   induction ts with
@@ -227,7 +238,7 @@ theorem build_defined (ts : List Token)
     obtain ⟨r, hr⟩ := ih (fun x hx => h x (by simp [hx]))
     have ht := h t (by simp)
     have : ∃ a, Spec.Script.tokenBytes t = some a := by
-      rcases t with n | z | d | b | _
+      rcases t with n | z | d | b | u | _
       · simp only at ht; simp [Spec.Script.tokenBytes, ht]
       · simp only at ht
         simp only [Spec.Script.tokenBytes]
@@ -246,6 +257,7 @@ theorem build_defined (ts : List Token)
         rcases hp : Spec.Script.pushEncode d with _ | e
         · rw [pushEncode_none_iff] at hp; omega
         · exact ⟨e, rfl⟩
+      · exact ⟨_, rfl⟩
       · exact ⟨_, rfl⟩
       · exact absurd ht (by simp)
     obtain ⟨a, ha⟩ := this
@@ -563,8 +575,9 @@ theorem script_decomposition (s : Bytes) :
     · obtain ⟨_, _, _, _, ht⟩ := h3 e he
       exact Or.inr ht
 
-/-! signature-operation counting pinned by laws rather than by its definition: with
-    `script_decomposition` these determine the count of every byte string -/
+/-! signature-operation counting, by laws.  The individual laws below are consequences; the
+    complete set is `SigOpLaws`, which `sigops_laws_hold` proves of the (repaired) GetSigOpCount and
+    `sigops_laws_unique` proves to determine the count of EVERY byte string in both modes. -/
 
 /-- a single non-push opcode: 1 for CHECKSIG(VERIFY), 20 for CHECKMULTISIG(VERIFY), else 0; a single
     complete push: 0 — in both modes -/
@@ -608,6 +621,78 @@ theorem sigops_truncated_tail (a b : Bytes) (acc : Bool) (ha : Model.Script.isVa
   rw [pred_eq_spec_valid] at ha
   simp only [Except.ok.injEq, Spec.Script.isValid] at ha
   rw [sigops_eq_spec, sigops_eq_spec, sigOpCount_truncated acc a b ha hb]
+
+/-- the laws of signature-operation counting, stated over scripts given as sequences of operations
+    (no reference to a parser): nothing counts nothing; one more operation adds its weight, which
+    depends only on the operation before it (`Spec.sigWeight`: CHECKSIG 1; CHECKMULTISIG n right
+    after OP_n in accurate mode, otherwise 20 — legacy mode, start of script, after OP_0, OP_1NEGATE,
+    a push or any other opcode); a truncated push ends the count -/
+structure SigOpLaws (f : Bytes → Bool → Nat) : Prop where
+  empty : ∀ acc, f [] acc = 0
+  snoc : ∀ acc (ops : List (Nat × Bytes)) o d, (∀ q ∈ ops, ValidOp q.1 q.2) → ValidOp o d →
+    f (encOps ops ++ opEnc o d) acc =
+      f (encOps ops) acc + Spec.Script.sigWeight acc (ops.getLast?.map (·.1)) o
+  truncated : ∀ acc (ops : List (Nat × Bytes)) b, (∀ q ∈ ops, ValidOp q.1 q.2) →
+    Spec.Script.TruncatedPush b → f (encOps ops ++ b) acc = f (encOps ops) acc
+
+/-- GetSigOpCount obeys the laws -/
+theorem sigops_laws_hold :
+    ∃ f, SigOpLaws f ∧ ∀ s acc, Model.Script.getSigOpCount s acc = .ok (f s acc) := by
+  refine ⟨fun s acc => Spec.Script.sigOpCount acc s, ⟨?_, ?_, ?_⟩, fun s acc => sigops_eq_spec s acc⟩
+  · intro acc; simp [Spec.Script.sigOpCount, parse_nil, Spec.Script.sigOpsFrom]
+  · intro acc ops o d hv ho; exact sigOpCount_snoc acc ops o d hv ho
+  · intro acc ops b hv hb
+    exact sigOpCount_truncated acc _ b (by rw [parse_encOps hv]) hb
+
+/-- … and the laws leave no freedom: any function obeying them is GetSigOpCount, on every byte
+    string and in both modes (so e.g. `OP_0 CHECKMULTISIG`, `<push> CHECKMULTISIG`,
+    `NOP CHECKMULTISIG`, `OP_1NEGATE CHECKMULTISIG` and a leading CHECKMULTISIG are all forced to 20) -/
+theorem sigops_laws_unique (f : Bytes → Bool → Nat) (hf : SigOpLaws f) (s : Bytes) (acc : Bool) :
+    Model.Script.getSigOpCount s acc = .ok (f s acc) := by
+  rw [sigops_eq_spec]
+  congr 1
+  -- complete scripts, by induction on the operations from the right
+  have hcomplete : ∀ ops : List (Nat × Bytes), (∀ q ∈ ops, ValidOp q.1 q.2) →
+      Spec.Script.sigOpCount acc (encOps ops) = f (encOps ops) acc := by
+    intro ops
+    induction ops using List.reverseRecOn with
+    | nil =>
+      intro _
+      simp [encOps, hf.empty, Spec.Script.sigOpCount, parse_nil, Spec.Script.sigOpsFrom]
+    | append_singleton ops p ih =>
+      intro hv
+      have hv' : ∀ q ∈ ops, ValidOp q.1 q.2 := fun q hq => hv q (by simp [hq])
+      have hp : ValidOp p.1 p.2 := hv p (by simp)
+      rw [encOps_snoc, sigOpCount_snoc acc ops p.1 p.2 hv' hp, hf.snoc acc ops p.1 p.2 hv' hp, ih hv']
+  obtain ⟨a, b, rfl, ha, hb⟩ := script_decomposition s
+  obtain ⟨ops, hv, rfl⟩ := (isValid_iff a).mp ha
+  rcases hb with rfl | hb
+  · rw [List.append_nil]; exact hcomplete ops hv
+  · rw [hf.truncated acc ops b hv hb,
+      sigOpCount_truncated acc _ b (by rw [parse_encOps hv]) hb]
+    exact hcomplete ops hv
+
+/-- the cases the audit named, as instances: in accurate mode CHECKMULTISIG counts 20 at the start of
+    a script and after anything that is not OP_1..OP_16 -/
+theorem sigops_multisig_20 (ops : List (Nat × Bytes)) (m : Nat) (hv : ∀ q ∈ ops, ValidOp q.1 q.2)
+    (hm : m = 0xae ∨ m = 0xaf)
+    (hprev : ∀ q, ops.getLast? = some q → ¬ (0x51 ≤ q.1 ∧ q.1 ≤ 0x60)) (n : Nat)
+    (hn : Model.Script.getSigOpCount (encOps ops) true = .ok n) :
+    Model.Script.getSigOpCount (encOps ops ++ [UInt8.ofNat m]) true = .ok (n + 20) := by
+  have hmv : ValidOp m [] := ⟨by omega, by rcases hm with rfl | rfl <;> simp⟩
+  have he : opEnc m [] = [UInt8.ofNat m] := by
+    have : m > 0x4e := by omega
+    simp [opEnc, this]
+  rw [sigops_eq_spec] at hn ⊢
+  simp only [Except.ok.injEq] at hn
+  rw [← he, sigOpCount_snoc true ops m [] hv hmv, hn]
+  congr 2
+  have c1 : ¬ (m = 0xac ∨ m = 0xad) := by omega
+  simp only [Spec.Script.sigWeight, c1, hm, if_false, if_true]
+  rcases hl : ops.getLast? with _ | q
+  · rfl
+  · have := hprev q hl
+    simp [this]
 
 /-! ### the opcode-instance table -/
 
@@ -662,6 +747,9 @@ example : Model.Script.getSigOpCount [0x52, 0xae] true = .ok 2 ∧
   have h1 : Spec.Script.getOp [0x52, 0xae] = some (0x52, [], [0xae]) := by simp [Spec.Script.getOp]
   have h2 : Spec.Script.getOp [0xae] = some (0xae, [], []) := by simp [Spec.Script.getOp]
   simp [Spec.Script.sigOpCount, parse_cons, parse_nil, h1, h2, Spec.Script.sigOpsFrom, Spec.Script.decodeOPN]
+/-- the opcode table grows only through `CScriptOp(256)`, after which `CScriptOp(-1)` is that new entry -/
+example : Model.Script.cscriptOpNewSeq 256 [-1, 256, -1, 256, 258] =
+    [.ok 255, .ok 256, .ok 256, .ok 256, .error assertionError] := by decide
 /-- a first byte ≥ 0x80 (negative under the signed unpack) is never a witness program -/
 example : Model.Script.isWitnessScriptPubKey [0xd1, 0x02, 0x61, 0x62] = .ok false := by
   rw [pred_eq_spec_witness_program]; simp [Spec.Script.isWitnessProgram]
